@@ -48,6 +48,38 @@ func (g *gen) h1(a *aresp, o *h1opts, method, mode, segK string, decode bool) *e
 	return x
 }
 
+func (g *gen) h2(a *aresp, method, mode, segK string, declare bool) *exch {
+	o := &h2opts{Declare: declare, DeclareTr: g.rng.Chance(60)}
+	if g.rng.Chance(10) {
+		o.ContFrag = g.rng.Range(1, 200)
+	}
+	planH2(g.rng, a, o, method)
+	x := &exch{Proto: "h2", A: a, H2: o, Method: method, Mode: mode, SegK: segK, Pat: hk.Pick(g.rng, patterns)}
+	g.xs = append(g.xs, x)
+	return x
+}
+
+func (g *gen) h3(a *aresp, method, mode string, declare bool) *exch {
+	o := &h3opts{Declare: declare, DeclareTr: g.rng.Chance(60)}
+	planH3(g.rng, a, o, method)
+	x := &exch{Proto: "h3", A: a, H3: o, Method: method, Mode: mode, SegK: "quic", Pat: hk.Pick(g.rng, patterns)}
+	g.xs = append(g.xs, x)
+	return x
+}
+
+// muxFields: field lists that all three protocols can carry (HTTP/2 and HTTP/3 field names are lower-case on
+// the wire; h1-only features like obs-fold do not apply)
+func (g *gen) muxAresp(bodyLen, nFields int) *aresp {
+	a := genAresp(g.rng, bodyLen, nFields, false)
+	if bodyAllowed(a.Code) && g.rng.Chance(50) {
+		a.Trailers = genTrailers(g.rng, false)
+	}
+	if a.Code == 204 {
+		a.setBody(g.rng, 0) // a 204 announces no length other than 0 (RFC 9110 8.6)
+	}
+	return a
+}
+
 func (g *gen) pickFraming(a *aresp) *h1opts {
 	o := &h1opts{}
 	switch g.rng.Intn(3) {
@@ -57,7 +89,7 @@ func (g *gen) pickFraming(a *aresp) *h1opts {
 		o.Framing = wire.FrChunked
 		o.OneByte = g.rng.Chance(15) && len(a.Body) <= 600
 		if bodyAllowed(a.Code) {
-			a.Trailers = genTrailers(g.rng)
+			a.Trailers = genTrailers(g.rng, true)
 		}
 		o.Declare = g.rng.Chance(60)
 	default:
@@ -68,11 +100,16 @@ func (g *gen) pickFraming(a *aresp) *h1opts {
 	return o
 }
 
-func genTrailers(rng *hk.Rand) []field {
+// genTrailers: trailer names are disjoint from the header name pool unless clash is set (a net/http-style
+// origin - the HTTP/3 one - cannot send the same name as a header field and as a trailer field)
+func genTrailers(rng *hk.Rand, clash bool) []field {
+	pool := []string{"X-Checksum", "x-checksum", "Server-Timing", "X-Trailer-A", "x-trailer-b"}
+	if clash {
+		pool = append(pool, "Etag", "Server", "x-a")
+	}
 	var ts []field
 	for i, n := 0, rng.Intn(4); i < n; i++ {
-		t := field{hk.Pick(rng, []string{"X-Checksum", "x-checksum", "Server-Timing", "X-Trailer-A", "x-trailer-b", "Etag"}), genValue(rng, false)}
-		ts = append(ts, t)
+		ts = append(ts, field{hk.Pick(rng, pool), genValue(rng, false)})
 	}
 	return ts
 }
@@ -95,7 +132,7 @@ func (g *gen) build() {
 				}
 				o := &h1opts{Framing: []wire.Framing{wire.FrCL, wire.FrChunked, wire.FrClose}[fr]}
 				if o.Framing == wire.FrChunked {
-					a.Trailers = genTrailers(rng)
+					a.Trailers = genTrailers(rng, true)
 					o.Declare = rng.Bool()
 				}
 				g.h1(a, o, "GET", hk.Pick(rng, modes), hk.Pick(rng, []string{"one", "random"}), false)
@@ -148,6 +185,60 @@ func (g *gen) build() {
 		a := genAresp(rng, hk.Pick(rng, smallLens), rng.Range(10, 30), i%8 == 0)
 		g.h1(a, g.pickFraming(a), "GET", hk.Pick(rng, modes), hk.Pick(rng, segKinds), false)
 	}
+	// F. HTTP/2: DATA partitions with padding / empty frames / CONTINUATION, trailers, interim responses
+	for i, n := 0, r.Scale(260, 3000); i < n; i++ {
+		a := g.muxAresp(hk.Pick(rng, smallLens), rng.Intn(9))
+		method := "GET"
+		if i%11 == 0 {
+			method = "HEAD"
+		}
+		g.h2(a, method, hk.Pick(rng, modes), hk.Pick(rng, segKinds), rng.Bool())
+	}
+	for rep := 0; rep < r.Scale(1, 4); rep++ {
+		for _, n := range append(append([]int{}, bodyLens...), r.Scale(300000, 5<<20)) {
+			a := g.muxAresp(n, rng.Intn(5))
+			for !bodyAllowed(a.Code) {
+				a = g.muxAresp(n, rng.Intn(5))
+			}
+			g.h2(a, "GET", hk.Pick(rng, modes), hk.Pick(rng, []string{"one", "random"}), rng.Bool())
+		}
+	}
+	// G. HTTP/3
+	for i, n := 0, r.Scale(200, 2500); i < n; i++ {
+		a := g.muxAresp(hk.Pick(rng, smallLens), rng.Intn(9))
+		method := "GET"
+		if i%11 == 0 {
+			method = "HEAD"
+		}
+		g.h3(a, method, hk.Pick(rng, modes), rng.Bool())
+	}
+	for rep := 0; rep < r.Scale(1, 4); rep++ {
+		for _, n := range append(append([]int{}, bodyLens...), r.Scale(300000, 5<<20)) {
+			a := g.muxAresp(n, rng.Intn(5))
+			for !bodyAllowed(a.Code) {
+				a = g.muxAresp(n, rng.Intn(5))
+			}
+			g.h3(a, "GET", hk.Pick(rng, modes), rng.Bool())
+		}
+	}
+	// H. the same abstract response over all three protocols
+	for i, n := 0, r.Scale(120, 1500); i < n; i++ {
+		a := g.muxAresp(hk.Pick(rng, append(append([]int{}, smallLens...), 4096, 16385, 70000)), rng.Intn(8))
+		if !bodyAllowed(a.Code) {
+			a.Trailers = nil
+		}
+		mode := hk.Pick(rng, modes)
+		declare := rng.Bool()
+		o := &h1opts{Framing: wire.FrChunked, Declare: true}
+		if declare {
+			o.Framing = wire.FrCL
+			a.Trailers = nil // a declared length and trailers do not go together on HTTP/1.1
+		}
+		grp := i + 1
+		g.h1(a, o, "GET", mode, hk.Pick(rng, segKinds), false).Group = grp
+		g.h2(a, "GET", mode, hk.Pick(rng, segKinds), declare).Group = grp
+		g.h3(a, "GET", mode, declare).Group = grp
+	}
 }
 
 func runC02(r *hk.Run) {
@@ -167,6 +258,18 @@ func runC02(r *hk.Run) {
 		return
 	}
 	defer srv.Close()
+	srv2, err := newH2Srv()
+	if err != nil {
+		r.Fail(hk.Failure{Sig: "harness:h2-setup", What: "scripted HTTP/2 peer could not be set up: " + err.Error()})
+		return
+	}
+	defer srv2.ln.Close()
+	srv3, err := newH3Srv()
+	if err != nil {
+		r.Fail(hk.Failure{Sig: "harness:h3-setup", What: "HTTP/3 origin could not be set up: " + err.Error()})
+		return
+	}
+	defer srv3.srv.Close()
 
 	const workers = 8
 	var wg sync.WaitGroup
@@ -175,11 +278,17 @@ func runC02(r *hk.Run) {
 		go func(w int) {
 			defer wg.Done()
 			clients := map[bool]*req.Client{false: newH1Client(srv.Addr(), false), true: newH1Client(srv.Addr(), true)}
+			c2 := newH2Client(srv2.ln.Addr().String(), false)
+			c3 := newH3Client(false)
 			for i := w; i < len(g.xs); i += workers {
 				x := g.xs[i]
 				switch x.Proto {
 				case "h1":
 					x.runH1(srv, clients[x.Decode], outDir)
+				case "h2":
+					x.runH2(srv2, c2, outDir)
+				case "h3":
+					x.runH3(srv3, c3, outDir)
 				}
 			}
 		}(w)
@@ -187,6 +296,7 @@ func runC02(r *hk.Run) {
 	wg.Wait()
 	os.RemoveAll(outDir)
 
+	crossOracle(r, g.xs)
 	big := 0
 	for _, x := range g.xs {
 		x.oracle(r)
@@ -218,7 +328,7 @@ func runC02(r *hk.Run) {
 		if len(x.SegK) > 5 && x.SegK[:5] == "split" && len(x.segs) == 1 && x.segs[0]%6 != 1 {
 			emit = false // same wire bytes: the model's answer is the same
 		}
-		if emit {
+		if emit && x.Proto == "h1" {
 			c.Coq = x.coqH1()
 		}
 		r.Add(c, x.key(), nontrivial)
